@@ -62,6 +62,25 @@ def gen(rng, i, tier):
         polarity=rng.choice(["pos", "pos", "neg"]), regime="benign", tables=0.2, phases=0.4, max_depth=5, phase_conf=0.5,
         groups=rng.choice([0.0, 0.5, 0.9]), names="realistic", rails=0.2, general2d=0.0,
     )
+    scale = 1.0
+    if rng.random() < 0.25:
+        # micro / nano / pico-power systems: the SI formatting and the colour scale must work there too
+        scale = 10 ** rng.uniform(-9, -3)
+        for c in spec["comps"]:
+            a = c["args"]
+            for k_ in ("pwr", "pwrs", "ii", "iis", "iq"):
+                if k_ in a and not isinstance(a[k_], dict):
+                    a[k_] = G.sig(a[k_] * scale)
+            if c["kind"] == "RLoad":
+                a["rs"] = G.sig(a["rs"] / scale)
+            if "ig" in a:
+                a["ig"] = G.sig(1e-3 * scale)
+            if isinstance(a.get("eff"), dict):
+                a["eff"] = 0.9
+            if isinstance(a.get("vdrop"), dict):
+                a["vdrop"] = 0.1
+            if c.get("phase") and isinstance(c["phase"], dict):
+                c["phase"] = {p_: (G.sig(v * scale) if c["kind"] != "RLoad" else G.sig(v / scale)) for p_, v in c["phase"].items()}
     if hostile:
         k = rng.randrange(len(spec["comps"]))
         old = spec["comps"][k]["name"]
@@ -77,7 +96,7 @@ def gen(rng, i, tier):
         if c.get("group"):
             c["group"] = gmap.get(c["group"], c["group"])
     return {"spec": spec, "cseed": rng.randrange(1 << 40), "heat": rng.random() < 0.5, "group": rng.random() < 0.75,
-            "render": i % 9 == 0, "hostile": hostile}
+            "render": i % 9 == 0, "hostile": hostile, "current_scale": scale}
 
 
 def make_config(rng, ns, spec):
@@ -224,6 +243,9 @@ def run(ctx, case):
                     ctx.check("dot.rendered", False, dict(det0, exception=H.exc_sig(r) if st != "ok" else "no file",
                                                           kind="hostile" if case.get("hostile") else "realistic"))
     _rows.observe(ctx, spec)
+    if heat and losses:
+        mxl = max(losses.values())
+        ctx.count("max_loss_decade", int(math.floor(math.log10(mxl))) if mxl > 0 else "zero")
     ngroups = len(set(c["group"] for c in spec["comps"] if c.get("group")))
     if len(spec["comps"]) >= 5 and (ngroups or conf):
         ctx.nontrivial([S.canonical(spec), conf_before, heat, grp])
